@@ -351,10 +351,53 @@ def part_xref(mask):
     return st
 
 
+@guarded('C10')
+def run_identity_rate(w, psym, c):
+    """the rate 1 between a currency and itself (a converter reports it):
+    the same rules apply -- the price's currency must match, the quantity
+    must involve money; a matching price is returned unchanged"""
+    from datetime import date
+    from quantity.money import MoneyConverter
+    Q = w.q
+    conv = MoneyConverter(cur('EUR'), lambda: date(2020, 1, 1))
+    ident = conv.get_rate(cur(c), cur(c))
+    u = w.units[psym]
+    p = u.qty_cls(F(7, 4), u)
+    pc = [s for s, e in w.um[psym].udim if s in CUR and e > 0]
+    out = []
+    for form, f in (('p*r', lambda: p * ident), ('r*p', lambda: ident * p),
+                    ('p/r', lambda: p / ident)):
+        try:
+            res, err = f(), None
+        except Exception as exc:
+            res, err = None, exc
+        what = f"{form} with the identity rate {c}/{c}: ({p!r})"
+        shown = repr(res) if err is None else repr(err)
+        if pc == [c]:
+            if err is not None or type(res) is not type(p) or \
+                    res.unit is not u or O.fr(res.amount) != F(7, 4):
+                out.append((f'C10:identity-rate:{form}:value',
+                            f"{what} = {shown}, "
+                            "expected the price unchanged"))
+        elif not isinstance(err, (Q.QuantityError, ValueError)):
+            out.append((f'C10:identity-rate:{form}:mismatch',
+                        f"{what}: expected QuantityError (currency does not "
+                        "match / no money involved), got "
+                        f"{shown}"))
+    return out
+
+
 def part_compound(p, rates):
     mask, kind = p
     st = Stats()
     w, declared = build_compound(mask, kind)
+    for psym in list(declared) + ['kg', 'EUR', 'USD']:
+        for c in ('EUR', 'USD'):
+            st.paths += 1
+            st.transitions += 3
+            st.evaluations += 3
+            for sig, msg in run_identity_rate(w, psym, c):
+                st.violation(sig, msg, {'identity': [mask, kind, psym, c]})
     subjects = list(declared) + ['kg', 'EUR']
     if kind == 'mass':
         for order in ('p*m', 'm*p'):
@@ -397,6 +440,10 @@ def replay_price_mass(case):
 
 
 def replay(case):
+    if 'identity' in case:
+        mask, kind, psym, c = case['identity']
+        w, declared = build_compound(mask, kind)
+        return run_identity_rate(w, psym, c)
     if 'xref' in case:
         st = part_xref(case['xref'])
         return [(sig, msg) for sig, (n, msg, cs) in st.viol.items()]
